@@ -9,10 +9,15 @@ import (
 	"encoding/json"
 	"errors"
 	"fmt"
+	"os"
+	"sort"
+	"strconv"
 	"testing"
 	"time"
 
+	"github.com/cenkalti/rain/v2/internal/storage/filestorage"
 	"github.com/cenkalti/rain/v2/internal/tracker"
+	"github.com/cenkalti/rain/v2/torrent"
 	"github.com/cenkalti/rain/v2/zzverif/core"
 	"github.com/cenkalti/rain/v2/zzverif/refcodec"
 )
@@ -340,3 +345,89 @@ func crashKeyFromStderr(s string) string {
 }
 
 var _ = tracker.ErrDecode
+
+// ---- helpers for engines built on top of the lab (crashlab)
+
+// DrainDefault follows the default policy until nothing is enabled.
+func (w *World) DrainDefault(max int) { w.drain(max) }
+
+// TryOpenSession is OpenSession that returns the error instead of aborting.
+func (w *World) TryOpenSession() error {
+	s, err := torrent.NewSession(w.Cfg)
+	if err != nil {
+		return err
+	}
+	w.S = s
+	w.Quiesce()
+	return nil
+}
+
+// AdoptLoadedTorrents registers the torrents the session loaded from its resume database.
+func (w *World) AdoptLoadedTorrents() {
+	ts := w.S.ListTorrents()
+	sort.Slice(ts, func(i, j int) bool { return ts[i].ID() < ts[j].ID() })
+	for _, t := range ts {
+		w.Tors = append(w.Tors, t)
+		if w.Tor == nil {
+			w.Tor = t
+		}
+	}
+	w.Quiesce()
+}
+
+// AllFilesPresent reports whether every non-padding file of the torrent exists in storage.
+func (w *World) AllFilesPresent() bool {
+	names := map[string]bool{}
+	for _, n := range w.Store.FileNames(w.Tor.ID()) {
+		names[n] = true
+	}
+	for fi, f := range w.G.L.Files {
+		if !f.Pad && !names[w.G.StoragePath(fi)] {
+			return false
+		}
+	}
+	return true
+}
+
+// RealStorageOpenFlags opens a file through rain's real file storage and returns its open flags (from /proc/self/fdinfo).
+func RealStorageOpenFlags(dir string) (int64, error) {
+	fs, err := filestorage.New(dir, 0o755)
+	if err != nil {
+		return 0, err
+	}
+	f, _, err := fs.Open("probe.bin", 10)
+	if err != nil {
+		return 0, err
+	}
+	defer f.Close()
+	of, ok := f.(*os.File)
+	if !ok {
+		return 0, fmt.Errorf("storage file is %T", f)
+	}
+	b, err := os.ReadFile(fmt.Sprintf("/proc/self/fdinfo/%d", of.Fd()))
+	if err != nil {
+		return 0, err
+	}
+	for _, ln := range strings.Split(string(b), "\n") {
+		if strings.HasPrefix(ln, "flags:") {
+			return strconv.ParseInt(strings.TrimSpace(strings.TrimPrefix(ln, "flags:")), 8, 64)
+		}
+	}
+	return 0, fmt.Errorf("no flags line")
+}
+
+// drain follows the default policy (first StdAction) until nothing is enabled. Setup only.
+func (w *World) drain(max int) { w.drainUntil(max, func() bool { return false }) }
+
+func (w *World) drainUntil(max int, stop func() bool) {
+	w.Quiesce()
+	for i := 0; i < max && w.Dead == "" && !stop(); i++ {
+		acts := StdActions(w)
+		if len(acts) == 0 {
+			return
+		}
+		acts[0].Do(w)
+		w.Quiesce()
+	}
+}
+
